@@ -1,7 +1,7 @@
 """C03 - graceful terminate interrupts the target wherever it is and is reported as such."""
 import ast
 
-from ..astutil import (AnalysisError, dotted, calls_in, last_attr, receiver, norm, is_name, walk_local, is_self_attr,
+from ..astutil import (canon, canon_ast, branch_where, edge_fact, edge_facts, conjuncts, guards_of, facts_at, AnalysisError, dotted, calls_in, last_attr, receiver, norm, is_name, walk_local, is_self_attr,
                        loc, short, parent_map)
 from ..cfg import is_flow, path_str
 from ..lifecycle import lifecycle, worker_classes, landing_label, handler_context, kind_of, is_persistent
@@ -210,19 +210,15 @@ def check_pipe_chain(ctx, cls, lc, func, calls, stmts, region='parent'):
     def edge_ok(e):
         if not is_flow(e):
             return False
-        if sigvar and e.src.kind == 'test' and isinstance(e.src.stmt, ast.If):
-            t = norm(e.src.stmt.test)
-            if t == f'{sigvar} is None' and e.kind == 'true':
-                return False
-            if t == f'{sigvar} is not None' and e.kind == 'false':
-                return False
-            if t == f'not {sigvar}' and e.kind == 'true':
+        if sigvar and e.src.kind == 'test' and isinstance(e.src.stmt, ast.If) and e.kind in ('true', 'false'):
+            # the value is the token (a non-empty string): edges that establish `sig is None` / `not sig` are not taken (polarity-free)
+            if edge_fact(e) in ((f'{sigvar} is None', True), (sigvar, False)):
                 return False
             # a comparison against a *different* constant sends the token the wrong way
-            st = e.src.stmt.test
+            st, pos = canon_ast(e.src.stmt.test)
             if isinstance(st, ast.Compare) and is_name(st.left, sigvar) and isinstance(st.ops[0], ast.Eq) and \
                     isinstance(st.comparators[0], ast.Constant) and isinstance(st.comparators[0].value, str):
-                same = st.comparators[0].value == token
+                same = (st.comparators[0].value == token) == pos
                 if (e.kind == 'true') != same:
                     return False
         return True
@@ -293,10 +289,13 @@ def check_remote_chain(ctx, cls, lc, term):
 
 
 def find_branch(func, cmd):
+    """statements executed when the received command equals `cmd` (polarity-free)"""
     for n in walk_local(func.node):
-        if isinstance(n, ast.If) and isinstance(n.test, ast.Compare) and isinstance(n.test.ops[0], ast.Eq) and \
-                isinstance(n.test.comparators[0], ast.Constant) and n.test.comparators[0].value == cmd:
-            return n.body
+        if isinstance(n, ast.If):
+            b = branch_where(n, lambda t: isinstance(t, ast.Compare) and len(t.ops) == 1 and isinstance(t.ops[0], ast.Eq) and
+                             isinstance(t.comparators[0], ast.Constant) and t.comparators[0].value == cmd)
+            if b:
+                return b
     return None
 
 
@@ -435,13 +434,17 @@ def check_stop_token(ctx, cls, lc, rc):
         for st in rc.node.body:
             if isinstance(st, ast.If):
                 # if self.is_child: ... elif self.is_remote_side: ... else: ...
-                cur = st
-                while isinstance(cur, ast.If):
-                    t = norm(cur.test)
-                    if 'is_remote_side' in t or '_remote_side' in t:
-                        regions['server'] = cur.body
-                        regions['parent'] = cur.orelse
-                    cur = cur.orelse[0] if len(cur.orelse) == 1 and isinstance(cur.orelse[0], ast.If) else None
+                todo = [st]
+                while todo:
+                    cur = todo.pop()
+                    t, pos = canon_ast(cur.test)
+                    if 'is_remote_side' in norm(t) or '_remote_side' in norm(t):
+                        regions['server'], regions['parent'] = (cur.body, cur.orelse) if pos else (cur.orelse, cur.body)
+                    # the chain continues in whichever branch is a lone `if` (elif, or the body of an inverted test)
+                    for br in (cur.orelse, cur.body):
+                        br = [x for x in br if not isinstance(x, ast.Pass)]
+                        if len(br) == 1 and isinstance(br[0], ast.If):
+                            todo.append(br[0])
         ctx.require('server' in regions, f'{rc.short}: server/parent regions not recognised')
     else:
         regions = {'parent': rc.node.body}
@@ -658,13 +661,14 @@ def check_poll(ctx):
     def edge_ok(e):
         if e.kind == 'async':
             return False
-        if e.src.kind == 'test' and isinstance(e.src.stmt, ast.If):
-            t = e.src.stmt.test
+        if e.src.kind == 'test' and isinstance(e.src.stmt, ast.If) and e.kind in ('true', 'false'):
+            t, pos = canon_ast(e.src.stmt.test)
+            holds = (e.kind == 'true') == pos        # on this edge the negation-free comparison `t` is true
             if isinstance(t, ast.Compare) and len(t.ops) == 1 and isinstance(t.ops[0], ast.Eq) and isinstance(t.left, ast.Name):
                 r = ctx.prog.resolve_dotted(f.module, t.left.id)
-                if r and r[0] in ('ext', 'module') and e.kind == 'true':
+                if r and r[0] in ('ext', 'module') and holds:
                     return False          # a module object never equals a number
-                if t.left.id == par and isinstance(t.comparators[0], ast.Constant) and t.comparators[0].value == 0 and e.kind == 'true':
+                if t.left.id == par and isinstance(t.comparators[0], ast.Constant) and t.comparators[0].value == 0 and holds:
                     return False          # timeout == 0: non-blocking is what was asked for
         return True
     p = g.find_path([g.entry], lambda n: n in bare, edge_ok=edge_ok)
